@@ -183,8 +183,8 @@ class EventSeriesClimateNetwork(EventSeries, ClimateNetwork):
                     self.event_analysis_significance(
                         method=self.__method, **ES_significance_kwargs)
 
-                for i in range(self.__N):
-                    for j in range(self.__N):
+                for i in range(measure_matrix.shape[0]):
+                    for j in range(measure_matrix.shape[1]):
                         if significance_matrix[i][j] < 1.0 - p_value:
                             measure_matrix[i][j] = 0.0
 
